@@ -215,6 +215,10 @@ func runC15WriteFaultTCP(c *mon.Case) {
 	}
 	sc := mailbox.VerifNewNoiseConn(&pipeConn{db}, sm)
 	total := 70000 + rng.Intn(200000)
+	if rng.Intn(2) == 0 {
+		// a single record (another code path of NoiseConn.Write)
+		total = 1 + rng.Intn(65535)
+	}
 	data := eng.StreamBytes('t', 0, total)
 	// interrupt some of the underlying writes (header and body writes
 	// alternate), accepting a PRNG part of the bytes
@@ -511,12 +515,34 @@ func c15Pair(variant string, rng *rand.Rand) (a, b net.Conn, cleanup func(), err
 		}
 		ach := make(chan acc, 1)
 		go func() { c, err := ln.Accept(); ach <- acc{c, err} }()
+		// In half of the cases the dialer's socket gathers what is written
+		// within 20 ms into one segment (a proxy, Nagle, a busy sender), so
+		// that the last handshake act and the first records arrive together.
+		gather := rng.Intn(2) == 0
 		cc, err := mailbox.Dial(keyC, ln.Addr(), pass, 5*time.Second, func(network, addr string, timeout time.Duration) (net.Conn, error) {
-			return net.DialTimeout(network, addr, timeout)
+			cn, err := net.DialTimeout(network, addr, timeout)
+			if err != nil || !gather {
+				return cn, err
+			}
+			return &gatherConn{Conn: cn}, nil
 		})
 		if err != nil {
 			ln.Close()
 			return nil, nil, nil, fmt.Errorf("dial: %v", err)
+		}
+		if gather {
+			// The accepting side's connection is resolved when it is
+			// first used: the dialer's application must be able to write
+			// before the listener has seen the last handshake act.
+			lz := &lazyConn{resolve: func() (net.Conn, error) {
+				select {
+				case a := <-ach:
+					return a.c, a.err
+				case <-time.After(30 * time.Second):
+					return nil, fmt.Errorf("accept timed out")
+				}
+			}}
+			return cc, lz, func() { cc.Close(); lz.Close(); ln.Close() }, nil
 		}
 		var a acc
 		select {
@@ -833,3 +859,111 @@ func runC15ConnAttempt(c *mon.Case, variant string, attempt int) {
 		c.Shard.Sample(rep)
 	}
 }
+
+// gatherConn delays writes by up to 20 ms and sends what has accumulated in one
+// Write of the underlying connection; a Read flushes first.
+type gatherConn struct {
+	net.Conn
+	mu      sync.Mutex
+	pending []byte
+	timer   *time.Timer
+	werr    error
+	closed  bool
+}
+
+func (g *gatherConn) flushLocked() {
+	if g.timer != nil {
+		g.timer.Stop()
+		g.timer = nil
+	}
+	if len(g.pending) > 0 && g.werr == nil {
+		_, g.werr = g.Conn.Write(g.pending)
+	}
+	g.pending = nil
+}
+
+func (g *gatherConn) Write(p []byte) (int, error) {
+	g.mu.Lock()
+	defer g.mu.Unlock()
+	if g.closed {
+		return 0, net.ErrClosed
+	}
+	if g.werr != nil {
+		return 0, g.werr
+	}
+	g.pending = append(g.pending, p...)
+	if len(g.pending) > 1<<20 {
+		g.flushLocked()
+	} else if g.timer == nil {
+		g.timer = time.AfterFunc(20*time.Millisecond, func() {
+			g.mu.Lock()
+			g.flushLocked()
+			g.mu.Unlock()
+		})
+	}
+	return len(p), g.werr
+}
+
+func (g *gatherConn) Read(p []byte) (int, error) {
+	g.mu.Lock()
+	g.flushLocked()
+	g.mu.Unlock()
+	return g.Conn.Read(p)
+}
+
+func (g *gatherConn) Close() error {
+	g.mu.Lock()
+	g.flushLocked()
+	g.closed = true
+	g.mu.Unlock()
+	return g.Conn.Close()
+}
+
+// lazyConn is a net.Conn that is obtained on first use.
+type lazyConn struct {
+	resolve func() (net.Conn, error)
+	once    sync.Once
+	c       net.Conn
+	err     error
+}
+
+func (l *lazyConn) get() (net.Conn, error) {
+	l.once.Do(func() { l.c, l.err = l.resolve() })
+	if l.err != nil || l.c == nil {
+		if l.err == nil {
+			l.err = fmt.Errorf("no connection")
+		}
+		return nil, l.err
+	}
+	return l.c, nil
+}
+
+func (l *lazyConn) Read(p []byte) (int, error) {
+	c, err := l.get()
+	if err != nil {
+		return 0, err
+	}
+	return c.Read(p)
+}
+
+func (l *lazyConn) Write(p []byte) (int, error) {
+	c, err := l.get()
+	if err != nil {
+		return 0, err
+	}
+	return c.Write(p)
+}
+
+func (l *lazyConn) Close() error {
+	c, err := l.get()
+	if err != nil {
+		return err
+	}
+	return c.Close()
+}
+
+func (l *lazyConn) LocalAddr() net.Addr                { return &net.TCPAddr{} }
+func (l *lazyConn) RemoteAddr() net.Addr               { return &net.TCPAddr{} }
+func (l *lazyConn) SetDeadline(t time.Time) error      { return nil }
+func (l *lazyConn) SetReadDeadline(t time.Time) error  { return nil }
+func (l *lazyConn) SetWriteDeadline(t time.Time) error { return nil }
